@@ -27,6 +27,7 @@ type H struct {
 	MaxSteps int64
 	MapOrder bool
 	Cross    bool // thorough tier: every assertion is re-decided by cvc5
+	NoSample bool // skip the native random-input self-check (harnesses that exhibit a known finding)
 	Minutes  int
 }
 
@@ -114,6 +115,7 @@ func matchKnown(kf []knownFinding, prop string, v sx.Violation) *knownFinding {
 type progKey struct{ tags string }
 
 var censusInfo map[string]any
+var nativeSamples [2]int
 
 func cmdCheck(args []string) int {
 	if len(args) < 2 {
@@ -269,6 +271,55 @@ func cmdCheck(args []string) int {
 	}
 	wg.Wait()
 	sort.Slice(results, func(i, j int) bool { return results[i].Harness < results[j].Harness })
+
+	// 2b. engine self-check in symbolic mode: harnesses the engine found free of
+	// violations are run natively with pseudo-random inputs; a native failure
+	// means the engine (or a harness bound) hides something.
+	nSample := 8
+	if tier == "thorough" {
+		nSample = 40
+	}
+	sampleOK, sampleAssume := 0, 0
+	if os.Getenv("VERIF_NO_SAMPLE") == "" {
+		var smu sync.Mutex
+		var swg sync.WaitGroup
+		ssem := make(chan struct{}, 16)
+		for _, h := range hs {
+			if h.NoSample {
+				continue
+			}
+			clean := true
+			for _, vr := range viols {
+				if vr.h.Fn == h.Fn && vr.h.Tags == h.Tags {
+					clean = false
+				}
+			}
+			if !clean {
+				continue
+			}
+			bin, err := nat.Build(h.Pkg, h.Tags, false)
+			if err != nil {
+				inconclusive = append(inconclusive, "native build for sampling: "+err.Error())
+				continue
+			}
+			swg.Add(1)
+			go func(h H, bin string) {
+				defer swg.Done()
+				ssem <- struct{}{}
+				defer func() { <-ssem }()
+				ok, af, fails := nat.RunRandom(bin, h.Fn, nSample, seed*1000)
+				smu.Lock()
+				sampleOK += ok
+				sampleAssume += af
+				for _, f := range fails {
+					inconclusive = append(inconclusive, fmt.Sprintf("ENGINE-SELF-CHECK: %s%s decided free of violations, but a native run with random inputs fails (%s)", h.Fn, map[bool]string{true: "@" + h.Tags, false: ""}[h.Tags != ""], f))
+				}
+				smu.Unlock()
+			}(h, bin)
+		}
+		swg.Wait()
+	}
+	nativeSamples = [2]int{sampleOK, sampleAssume}
 
 	// 3. replay violations natively; classify
 	exit := 0
@@ -591,6 +642,8 @@ func writeEvidence(prop *Prop, tier string, seed int, results []*sx.RunResult, p
 	if censusInfo != nil {
 		cov["nondeterminism_census"] = censusInfo
 	}
+	cov["native_random_input_runs"] = map[string]any{"passed": nativeSamples[0], "outside_assumptions": nativeSamples[1],
+		"purpose": "self-check of the engine in symbolic mode: every harness decided free of violations is also run natively with pseudo-random inputs; a failing native run makes the check inconclusive"}
 	ev := map[string]any{
 		"property_id": prop.ID,
 		"tier":        tier,
